@@ -240,7 +240,9 @@ static void sweep_cmyk8() {
         vh::rng rg = vh::case_rng();
         vlog vl;
         uint64_t n = 0;
+        std::set<uint32_t> seen;     // the axes and planes overlap, the seeded part may repeat: distinct pixels are counted, not assumed
         auto one = [&](int c, int m, int y, int k) {
+            seen.insert(((uint32_t)c << 24) | ((uint32_t)m << 16) | ((uint32_t)y << 8) | (uint32_t)k);
             gil::cmyk8_pixel_t s(c, m, y, k);
             gil::rgb8_pixel_t d; gil::bgr8_pixel_t d2; gil::rgba8_pixel_t d3; gil::gray8_pixel_t dg; gil::rgb16_pixel_t d16; gil::rgb32f_pixel_t df;
             gil::color_convert(s, d); gil::color_convert(s, d2); gil::color_convert(s, d3); gil::color_convert(s, dg); gil::color_convert(s, d16); gil::color_convert(s, df);
@@ -267,9 +269,15 @@ static void sweep_cmyk8() {
             for (int v = 0; v < 256; ++v) for (int k = 0; k < 256; ++k) { one(v, 0, 0, k); one(0, v, 0, k); one(0, 0, v, k); one(v, 255 - v, v / 2, k); }
         } else {
             long nr = cube::sanitized && !vh::thorough() ? (1l << 17) : (1l << 20);
-            for (long i = 0; i < nr; ++i) { uint64_t x = rg.next(); one((int)(x & 255), (int)((x >> 8) & 255), (int)((x >> 16) & 255), (int)((x >> 24) & 255)); }
+            for (long i = 0; i < nr; ++i) {
+                uint64_t x = rg.next();
+                int c = (int)(x & 255), m = (int)((x >> 8) & 255), y = (int)((x >> 16) & 255), k = (int)((x >> 24) & 255);
+                // pixels of the structured part are not counted twice
+                bool structured = ((c == 0) + (m == 0) + (y == 0) >= 2) || (c == m && m == y) || (m == 255 - c && y == c / 2);
+                if (!structured) one(c, m, y, k);
+            }
         }
-        vh::evals(n); vh::distinct(part == 0 ? n / 2 : n);   // the axes repeat a few points; the seeded part may repeat (2^20 of 2^32)
+        vh::evals(n); vh::distinct(seen.size());
         vh::sample(vh::cat("cmyk8 ", parts[part], ": ", n, " pixels -> rgb8/bgr8/rgba8/rgb16/rgb32f against 1-min(1,c(1-k)+k) within one 8-bit level, alpha = max, neutrals"));
     }
 }
